@@ -535,6 +535,17 @@ def _ears_case(desc, ctx, rng):
         V0.append([float(x) for x in apex])
         F0.append([b, a, len(V0) - 1])
         n_ears += 1
+    # further components made of one triangle, or of two triangles sharing a side (two or three vertices with only two incident edges in one face)
+    for _ in range(rng.choice([0, 0, 1, 2])):
+        o = np.array([20.0 + 5 * len(V0), rng.uniform(-1, 1), 0.0])
+        b = len(V0)
+        if rng.random() < 0.6:
+            V0 += [[float(x) for x in o], [float(x) for x in o + [1, 0, 0.2]], [float(x) for x in o + [0.3, 1, 0]]]
+            F0.append([b, b + 1, b + 2])
+        else:
+            V0 += [[float(x) for x in o], [float(x) for x in o + [1, 0, 0.2]], [float(x) for x in o + [1.2, 1, 0]], [float(x) for x in o + [0, 1.1, 0.1]]]
+            F0 += [[b, b + 1, b + 2], [b, b + 2, b + 3]]
+        n_ears += 1
     a0 = topo.analyse(len(V0), F0)
     if not (a0["manifold"] and a0["oriented"]):
         ctx.cls("ears:skipped_non_manifold_draw")
